@@ -23,6 +23,7 @@ type Sched struct {
 	Choose func(n int, names []string) int
 	Trace  []string
 	Steps  int
+	Sends  int // granted gates before sends into the sync loop's input channels
 	off    bool
 }
 
@@ -128,6 +129,9 @@ func (s *Sched) Drain() int {
 		delete(s.parked, names[k])
 		s.last = names[k]
 		s.Steps++
+		if strings.HasPrefix(p.op, "send:") {
+			s.Sends++
+		}
 		if len(s.Trace) < 400 {
 			s.Trace = append(s.Trace, names[k]+":"+p.op)
 		}
@@ -135,4 +139,16 @@ func (s *Sched) Drain() int {
 		close(p.grant)
 		grants++
 	}
+}
+
+// Alive lists the registered threads that have not returned yet.
+func (s *Sched) Alive() []string {
+	s.mu.Lock()
+	defer s.mu.Unlock()
+	var out []string
+	for _, n := range s.names {
+		out = append(out, n)
+	}
+	sort.Strings(out)
+	return out
 }
